@@ -5,8 +5,8 @@ from props import hc_common as H
 from gen_hc import Sim, Net, pick_cfg, random_traffic, pick_len, F
 
 PROP = "C01"
-LAKE_TARGETS = ["Uflow.Props.C01", "Uflow.Props.C01Sys", "Uflow.Props.C01Hc", "uflow_driver"]
-PROPS_FILES = ["C01", "C01Sys", "C01Hc"]
+LAKE_TARGETS = ["Uflow.Props.C01", "Uflow.Props.C01Sys", "Uflow.Props.C01Hc", "Uflow.Props.C01Init", "uflow_driver"]
+PROPS_FILES = ["C01", "C01Sys", "C01Hc", "C01Init"]
 TRUSTED_BASE = [
     "Lean 4.33 kernel; axioms per theorem under coverage.axioms",
     "tools/extract_consts.py",
